@@ -31,7 +31,7 @@ DIAG = {"cache_hits", "cache_misses", "cache_used", "cache_enabled", "cache_hit"
 KINDS = ["repeat", "other-agent", "edge-replace-same-count", "node-label-change", "episode-add", "apply", "kill-switch-turn", "cfg:k_retrieval", "cfg:ranking",
          "cfg:sim_threshold", "cfg:owner_scope", "cfg:now", "cfg:now-same-day", "cfg:residual_cap", "cfg:tiers", "cfg:exact_recent_days", "cfg:hybrid", "gel-edge-change",
          "cfg:t1.queue_budget", "cfg:t1.decay", "slice-cap", "switch-state", "node-add", "edge-add",
-         "switch-state-reordered", "text-variant", "episode-readd-same-id", "slice-cap-t1", "index-clear-refill", "cfg:perf-master-with-t1-caps", "graph-apply-deltas"]
+         "switch-state-reordered", "text-variant", "episode-readd-same-id", "slice-cap-t1", "index-clear-refill", "cfg:perf-master-with-t1-caps", "graph-apply-deltas", "replace-state"]
 
 
 def gen_history(rng, kind=None):
@@ -286,12 +286,34 @@ def check_history(case, sess: Session):
             envs["U"].append(eu2)
         cur = 0
         holder = {}
+        extra_envs = []
         turn_no = 0
         muts_since = {}
         proxy_hits_prev = 0
         try:
             for oi, op in enumerate(case["ops"]):
                 if op["op"] == "mutate":
+                    if kind == "replace-state":
+                        # the engine state is dropped and a brand-new one (same sizes, other content) takes its place: objects of
+                        # the new state may land on the addresses of the dead one
+                        import gc
+                        w3 = copy.deepcopy(case["world"])
+                        for g in w3["graphs"].values():
+                            for e in g["edges"]:
+                                e[3] = 0.0 if e[3] else 0.9
+                        for e in w3["eps"]:
+                            e["text"] = e["text"] + f" river moon {op['i'] % 7}"
+                        for name_ in ("C", "U"):
+                            old_env = envs[name_][0]
+                            cfg_keep = old_env.cfg
+                            old_env.state.clear()
+                            gc.collect()
+                            new_env = TurnEnv(cfg_c if name_ == "C" else cfg_u, copy.deepcopy(w3), cfg_obj=cfg_keep)
+                            new_env.__enter__()
+                            extra_envs.append(new_env)
+                            envs[name_] = [new_env]
+                        holder["pending"] = op
+                        continue
                     if kind in ("switch-state", "switch-state-reordered"):
                         cur = 1 - cur
                     elif kind == "text-variant":
@@ -429,6 +451,8 @@ def check_history(case, sess: Session):
             if kind in ("switch-state", "switch-state-reordered"):
                 for e in (envs["C"][1], envs["U"][1]):
                     e.__exit__(None, None, None)
+            for e in extra_envs:
+                e.__exit__(None, None, None)
 
 
 def _chunk(args):
